@@ -1,9 +1,144 @@
 ------------------------------- MODULE CelTime -------------------------------
+(***************************************************************************)
+(* Timestamps: an instant is an exact count of nanoseconds since           *)
+(* 1970-01-01T00:00:00Z (BigInt) together with the UTC offset (seconds) it *)
+(* was given with.  The proleptic Gregorian calendar is defined here from  *)
+(* first principles (days-from-civil / civil-from-days, all in native      *)
+(* integers: |days| < 4 * 10^6 for years 1..9999); chrono is code under    *)
+(* test, not an oracle.                                                    *)
+(***************************************************************************)
 EXTENDS Naturals, Integers, Sequences, FiniteSets, CelValue
+LOCAL N  == INSTANCE BigNat
 LOCAL Z  == INSTANCE BigInt
+LOCAL NM == INSTANCE Num64
+
 Accessors == {"getFullYear", "getMonth", "getDayOfYear", "getDayOfMonth", "getDate", "getDayOfWeek",
               "getHours", "getMinutes", "getSeconds", "getMilliseconds"}
-\* placeholders until the calendar is specified (C16): outcome not pinned
-TimestampFn(v) == D(R(VTs(Z!Zero, 0)))
-Accessor(name, v) == D(R(VIntN(0)))
+
+\* floor division / modulo on native integers (TLC's \div and % already floor for positive divisors)
+FDiv(a, b) == a \div b
+FMod(a, b) == a % b
+
+IsLeap(y) == (y % 4 = 0 /\ y % 100 # 0) \/ y % 400 = 0
+DaysInMonth(y, m) == CASE m \in {1, 3, 5, 7, 8, 10, 12} -> 31
+                       [] m \in {4, 6, 9, 11} -> 30
+                       [] m = 2 -> IF IsLeap(y) THEN 29 ELSE 28
+
+\* days since 1970-01-01 of the civil date y-m-d (era-based algorithm; March-based year)
+DaysFromCivil(y, m, d) ==
+  LET yy == IF m <= 2 THEN y - 1 ELSE y
+      era == FDiv(yy, 400)
+      yoe == yy - era * 400
+      mp == IF m > 2 THEN m - 3 ELSE m + 9
+      doy == (153 * mp + 2) \div 5 + d - 1
+      doe == yoe * 365 + yoe \div 4 - yoe \div 100 + doy
+  IN  era * 146097 + doe - 719468
+
+\* the inverse
+CivilFromDays(z0) ==
+  LET z == z0 + 719468
+      era == FDiv(z, 146097)
+      doe == z - era * 146097
+      yoe == (doe - doe \div 1460 + doe \div 36524 - doe \div 146096) \div 365
+      y == yoe + era * 400
+      doy == doe - (365 * yoe + yoe \div 4 - yoe \div 100)
+      mp == (5 * doy + 2) \div 153
+      d == doy - (153 * mp + 2) \div 5 + 1
+      m == IF mp < 10 THEN mp + 3 ELSE mp - 9
+  IN  [y |-> IF m <= 2 THEN y + 1 ELSE y, m |-> m, d |-> d]
+
+\* 1970-01-01 was a Thursday; 0 = Sunday
+Weekday(days) == FMod(days + 4, 7)
+YearDay(y, m, d) == DaysFromCivil(y, m, d) - DaysFromCivil(y, 1, 1)      \* 0-based
+
+NsPerSec == N!FromNat(1000000000)
+NsPerDay == N!MulLimb(N!MulLimb(NsPerSec, 8640), 10)
+\* floor division of a BigInt by a positive BigNat: <<quotient (BigInt), remainder (BigNat, >= 0)>>
+FloorDivMod(n, b) ==
+  LET dm == N!DivMod(n.m, b) IN
+  IF n.s >= 0 THEN << Z!Z(1, dm[1]), dm[2] >>
+  ELSE IF N!IsZero(dm[2]) THEN << Z!Z(-1, dm[1]), << >> >>
+  ELSE << Z!Z(-1, N!Add(dm[1], << 1 >>)), N!Sub(b, dm[2]) >>
+
+\* local broken-down time of an instant at an offset: [days, sod (second of day), ns (nanos of second)]
+Local(n, off) ==
+  LET loc == Z!Add(n, Z!Mul(Z!FromInt(off), Z!FromNatB(NsPerSec)))
+      dd == FloorDivMod(loc, NsPerDay)
+      ss == N!DivMod(dd[2], NsPerSec)
+  IN  [days |-> Z!ToInt(dd[1]), sod |-> N!ToNat(ss[1]), ns |-> N!ToNat(ss[2])]
+
+\* instants of years 1..9999 (UTC): the range in which the properties pin arithmetic down
+MinInstant == Z!Mul(Z!FromInt(DaysFromCivil(1, 1, 1)), Z!FromNatB(NsPerDay))
+MaxInstant == Z!Sub(Z!Mul(Z!FromInt(DaysFromCivil(9999, 12, 31) + 1), Z!FromNatB(NsPerDay)), Z!FromInt(1))
+InRange(n) == Z!Le(MinInstant, n) /\ Z!Le(n, MaxInstant)
+
+Accessor(name, v) ==
+  IF v.t # "ts" THEN E({"type"})
+  ELSE LET l == Local(v.n, v.off)
+           c == CivilFromDays(l.days)
+           ok == InRange(v.n)
+           val == CASE name = "getFullYear"     -> c.y
+                    [] name = "getMonth"        -> c.m - 1
+                    [] name = "getDayOfMonth"   -> c.d - 1
+                    [] name = "getDate"         -> c.d
+                    [] name = "getDayOfYear"    -> YearDay(c.y, c.m, c.d)
+                    [] name = "getDayOfWeek"    -> Weekday(l.days)
+                    [] name = "getHours"        -> l.sod \div 3600
+                    [] name = "getMinutes"      -> (l.sod % 3600) \div 60
+                    [] name = "getSeconds"      -> l.sod % 60
+                    [] name = "getMilliseconds" -> l.ns \div 1000000
+       IN  IF ok THEN R(VIntN(val)) ELSE D(R(VIntN(val)))
+
+-----------------------------------------------------------------------------
+(* RFC 3339 *)
+IsDigit(c) == c >= 48 /\ c <= 57
+Num(cp, i, n) == LET RECURSIVE F(_, _) F(k, acc) == IF k = n THEN acc ELSE F(k + 1, acc * 10 + (cp[i + k] - 48)) IN F(0, 0)
+AllDigitsAt(cp, i, n) == i + n - 1 <= Len(cp) /\ \A k \in 0..(n - 1) : IsDigit(cp[i + k])
+RECURSIVE DigitRun(_, _)
+DigitRun(cp, i) == IF i <= Len(cp) /\ IsDigit(cp[i]) THEN 1 + DigitRun(cp, i + 1) ELSE 0
+
+\* [ok, n (instant), off, lax (TRUE when only a lenient reading accepts it)] | [ok |-> FALSE]
+ParseRfc3339(cp) ==
+  IF ~(Len(cp) >= 20 /\ AllDigitsAt(cp, 1, 4) /\ cp[5] = 45 /\ AllDigitsAt(cp, 6, 2) /\ cp[8] = 45 /\ AllDigitsAt(cp, 9, 2)
+       /\ cp[11] \in {84, 116, 32} /\ AllDigitsAt(cp, 12, 2) /\ cp[14] = 58 /\ AllDigitsAt(cp, 15, 2) /\ cp[17] = 58 /\ AllDigitsAt(cp, 18, 2))
+  THEN [ok |-> FALSE]
+  ELSE LET y == Num(cp, 1, 4) mo == Num(cp, 6, 2) d == Num(cp, 9, 2)
+           h == Num(cp, 12, 2) mi == Num(cp, 15, 2) s == Num(cp, 18, 2)
+           hasFrac == cp[20] = 46
+           nf == IF hasFrac THEN DigitRun(cp, 21) ELSE 0
+           j == 20 + (IF hasFrac THEN 1 + nf ELSE 0)              \* position of the zone
+           fracNs == IF nf = 0 THEN 0 ELSE LET k == IF nf > 9 THEN 9 ELSE nf IN Num(cp, 21, k) * (10 ^ (9 - k))
+           zoneZ == j = Len(cp) /\ cp[j] \in {90, 122}
+           zoneN == j + 5 = Len(cp) /\ cp[j] \in {43, 45} /\ AllDigitsAt(cp, j + 1, 2) /\ cp[j + 3] = 58 /\ AllDigitsAt(cp, j + 4, 2)
+           oh == IF zoneN THEN Num(cp, j + 1, 2) ELSE 0
+           om == IF zoneN THEN Num(cp, j + 4, 2) ELSE 0
+           off == IF zoneN THEN (IF cp[j] = 45 THEN -1 ELSE 1) * (oh * 3600 + om * 60) ELSE 0
+           valid == /\ (hasFrac => nf >= 1) /\ (zoneZ \/ zoneN)
+                    /\ mo \in 1..12 /\ d >= 1 /\ d <= DaysInMonth(y, mo)
+                    /\ h <= 23 /\ mi <= 59 /\ s <= 60 /\ oh <= 23 /\ om <= 59
+       IN  IF ~valid THEN [ok |-> FALSE]
+           ELSE LET days == DaysFromCivil(y, mo, d)
+                    secs == Z!Add(Z!Mul(Z!FromInt(days), Z!FromInt(86400)), Z!FromInt(h * 3600 + mi * 60 + s - off))
+                    n == Z!Add(Z!Mul(secs, Z!FromNatB(NsPerSec)), Z!FromInt(fracNs))
+                IN  [ok |-> TRUE, n |-> n, off |-> off,
+                     lax |-> cp[11] # 84 \/ (zoneZ /\ cp[j] = 122) \/ s = 60 \/ y = 0 \/ nf > 9 \/ (zoneN /\ cp[j] = 45 /\ oh = 0 /\ om = 0)]
+
+TimestampFn(v) ==
+  IF v.t # "str" THEN E({"type", "fnerr"})
+  ELSE LET p == ParseRfc3339(v.cp) IN
+       IF ~p.ok THEN E({"fnerr"})
+       ELSE IF p.lax THEN D(R(VTs(p.n, p.off))) ELSE R(VTs(p.n, p.off))
+
+\* does the text denote exactly this instant and offset?  (used for string(timestamp): the rendering
+\* is any RFC 3339 spelling of the same instant at the same offset)
+Denotes(cp, v) == LET p == ParseRfc3339(cp) IN p.ok /\ p.n = v.n /\ p.off = v.off
+
+\* timestamp +/- duration, timestamp - timestamp on exact nanoseconds
+PlusDur(t, d, sign) ==
+  LET n == IF sign = 1 THEN Z!Add(t.n, d.n) ELSE Z!Sub(t.n, d.n) IN
+  IF InRange(t.n) /\ InRange(n) /\ NM!InI64(d.n) THEN R(VTs(n, t.off))
+  ELSE D(E({"overflow", "type", "fnerr"}))           \* outside years 1..9999: an error, or a wider host range
+Diff(a, b) ==
+  LET n == Z!Sub(a.n, b.n) IN
+  IF NM!InI64(n) THEN R(VDur(n)) ELSE D(E({"overflow", "type", "fnerr"}))
 =============================================================================
